@@ -420,7 +420,8 @@ def _run_group(g, repo=REPO, use_cache=True):
         res['reason'] = str(e)
     finally:
         res['wall_s'] = round(time.time() - t0, 2)
-        shutil.rmtree(scratch, ignore_errors=True)
+        if os.environ.get("QV_KEEP") != "1": shutil.rmtree(scratch, ignore_errors=True)
+        else: print("KEPT", scratch)
     return res
 
 
